@@ -29,6 +29,8 @@ DEFAULT_PARSERS = [
     {"name": "glr-prefixes", "kind": "glr", "opts": {"consume_input": False}},
     {"name": "glr-recovery", "kind": "glr", "opts": {"error_recovery": True}},
     {"name": "glr-lexdis", "kind": "glr", "ld": True},
+    {"name": "glr-loaded", "kind": "glr", "loaded": True},
+    {"name": "glr-ctr", "kind": "glr", "ctr": True},
     {"name": "lr-prefix-recovery", "kind": "lr",
      "opts": {"build_tree": True, "consume_input": False, "error_recovery": True}},
 ]
@@ -38,7 +40,7 @@ def build_item(item, tmpdir, full=False):
     from parglare import GLRParser, Grammar, Parser
     from parglare.closure import LR_0, LR_1
     from parglare.tables import create_table
-    from parglare.tables.persist import save_table, table_to_serializable
+    from parglare.tables.persist import load_table, save_table, table_to_serializable
 
     from pgsim import pool
     from pgsim.outcome import parse_outcome
@@ -94,6 +96,18 @@ def build_item(item, tmpdir, full=False):
         ]
         d = {"table": sha(ser), "bytes": sha(b), "conflicts": sha(json.dumps(conf)),
              "nstates": len(table.states), "nconf": [len(conf[0]), len(conf[1])]}
+        # "cached tables mean the same thing in every process": the table a process
+        # LOADS from the saved file reports the same conflicts, in the same order,
+        # as the table of the process that computed it
+        try:
+            loaded = load_table(f, g)
+            lconf = [
+                [[c.state.state_id, c.term.fqn, [p.prod_id for p in c.productions]] for c in cs]
+                for cs in (loaded.sr_conflicts, loaded.rr_conflicts)
+            ]
+            d["loaded_same_conflicts"] = lconf == conf
+        except Exception as e:
+            d["loaded_same_conflicts"] = type(e).__name__
         if full:
             d["table_full"] = json.loads(ser)
             d["conflicts_full"] = conf
@@ -124,7 +138,17 @@ def build_item(item, tmpdir, full=False):
                 elif not lr:
                     kw["lexical_disambiguation"] = False
                 table = _ct(g, prefer_shifts=lr, prefer_shifts_over_empty=lr, **kw)
-                p = cls(g, table=table, **pc.get("opts", {}))
+                if pc.get("loaded"):
+                    # the same table as another process would get it: through the file
+                    f = os.path.join(tmpdir, "p.pgc")
+                    save_table(f, table)
+                    table = load_table(f, g)
+                opts = dict(pc.get("opts", {}))
+                if pc.get("ctr"):
+                    from pgsim.peers import custom_token_recognition
+
+                    opts["custom_token_recognition"] = custom_token_recognition
+                p = cls(g, table=table, **opts)
                 if lr and (table.sr_conflicts or table.rr_conflicts):
                     out[key] = {"exc": "conflicts"}
                     continue
@@ -137,6 +161,10 @@ def build_item(item, tmpdir, full=False):
                     "error_recovery")))
                 res.append(o if full else sha(json.dumps(o, sort_keys=True)))
             out[key] = res
+        # forest[i] must mean the same tree whether the table was computed here or
+        # loaded from the file another process saved
+        if isinstance(out.get("glr"), list) and isinstance(out.get("glr-loaded"), list):
+            out["glr-loaded-same-as-computed"] = {"same": out["glr"] == out["glr-loaded"]}
     return out
 
 
